@@ -150,7 +150,7 @@ def run(ctx):
                 tasks.append((base, m, (base,)))
                 tasks.append((m, base, (m,)))
                 extra.update((base, m))
-        if allpairs and len(g) <= 4:
+        if g in schemas.CHAIN3_GROUPS:
             # small groups: every chain of three members
             for a in g:
                 for b in g:
